@@ -127,4 +127,6 @@ class XMLReader(TextToModel):
                     print("This XML contains non supported elements", file=sys.stderr)
         else:
             raise RuntimeError("Something is wrong on the xml")
+        if not relation.children:
+            raise FlamaException(f"The relation '{element.attrib.get('name')}' has no features.")
         return relation
